@@ -2,8 +2,11 @@ package rules
 
 import (
 	"encoding/json"
+	"fmt"
+	"math/big"
 	"os"
 	"path/filepath"
+	"strings"
 
 	"elyslint/core"
 )
@@ -16,3 +19,81 @@ func loadTable(name string, v any) error {
 	}
 	return json.Unmarshal(b, v)
 }
+
+// ---- range tables (R10) ----------------------------------------------------------------
+
+type rangeEntry struct {
+	Range  string `json:"range"`
+	Reason string `json:"reason"`
+}
+
+type rangeTable struct {
+	Fields  map[string]rangeEntry `json:"fields"`
+	Results map[string]rangeEntry `json:"results"`
+	Params  map[string]rangeEntry `json:"params"`
+	Ideal   map[string]string     `json:"ideal"`
+	MonoUp  map[string]string     `json:"mono_up"`
+}
+
+// parseItv reads "[0,inf)", "(0,1]", "(-inf,inf)".
+func parseItv(s string) (core.Itv, error) {
+	s = strings.TrimSpace(s)
+	if len(s) < 5 {
+		return core.Top(), fmt.Errorf("bad interval %q", s)
+	}
+	loOpen, hiOpen := s[0] == '(', s[len(s)-1] == ')'
+	parts := strings.Split(s[1:len(s)-1], ",")
+	if len(parts) != 2 {
+		return core.Top(), fmt.Errorf("bad interval %q", s)
+	}
+	var lo, hi *big.Rat
+	if p := strings.TrimSpace(parts[0]); p != "-inf" {
+		r, ok := new(big.Rat).SetString(p)
+		if !ok {
+			return core.Top(), fmt.Errorf("bad bound %q", p)
+		}
+		lo = r
+	}
+	if p := strings.TrimSpace(parts[1]); p != "inf" && p != "+inf" {
+		r, ok := new(big.Rat).SetString(p)
+		if !ok {
+			return core.Top(), fmt.Errorf("bad bound %q", p)
+		}
+		hi = r
+	}
+	return core.Range(lo, hi, loOpen, hiOpen), nil
+}
+
+func loadRangeSpec(name string) (*core.RangeSpec, error) {
+	var t rangeTable
+	if err := loadTable(name, &t); err != nil {
+		return nil, err
+	}
+	sp := &core.RangeSpec{Fields: map[string]core.Itv{}, Results: map[string]core.Itv{}, Params: map[string]core.Itv{}, Ideal: map[string]*big.Rat{}, MonoUp: map[string]bool{}}
+	for _, m := range []struct {
+		src map[string]rangeEntry
+		dst map[string]core.Itv
+	}{{t.Fields, sp.Fields}, {t.Results, sp.Results}, {t.Params, sp.Params}} {
+		for k, e := range m.src {
+			it, err := parseItv(e.Range)
+			if err != nil {
+				return nil, err
+			}
+			m.dst[k] = it
+		}
+	}
+	for k, v := range t.Ideal {
+		r, ok := new(big.Rat).SetString(v)
+		if !ok {
+			return nil, fmt.Errorf("bad ideal %q", v)
+		}
+		sp.Ideal[k] = r
+	}
+	for k := range t.MonoUp {
+		sp.MonoUp[k] = true
+	}
+	return sp, nil
+}
+
+// LoadRangeSpec is exported for the debugging command.
+func LoadRangeSpec(name string) (*core.RangeSpec, error) { return loadRangeSpec(name) }
